@@ -117,7 +117,7 @@ Section Total.
     induction t using fterm_ind'.
     - (* var *)
       assert (Hty : forall G, tg G (FVar v ty chi) = true -> exists ty0, ty = Some ty0).
-      { intros G Hg. rewrite tg_var in Hg. apply andb_prop in Hg. destruct Hg as [Hv _]. apply var_ok_look in Hv.
+      { intros G Hg. rewrite tg_var in Hg. pose proof Hg as Hv. apply var_ok_look in Hv.
         destruct Hv as [ty0 [-> _]]. eauto. }
       split.
       + intros G cont Hg. rewrite wc_unfold. destruct (Hty G Hg) as [ty0 ->]. unfold wc_var. simpl.
@@ -134,7 +134,7 @@ Section Total.
       assert (HW : TW (FIfC s t1 b t2 t3 ty)).
       { intros G cont Hg. rewrite wc_unfold. rewrite tg_ifc in Hg.
         apply andb_prop in Hg. destruct Hg as [Hg _]. apply andb_prop in Hg. destruct Hg as [Hg _].
-        apply andb_prop in Hg. destruct Hg as [Hg _]. apply andb_prop in Hg. destruct Hg as [Hg Hg3].
+        apply andb_prop in Hg. destruct Hg as [Hg Hg3].
         apply andb_prop in Hg. destruct Hg as [Hg Hg2]. apply andb_prop in Hg. destruct Hg as [Hg Hgb].
         apply andb_prop in Hg. destruct Hg as [Hg1 _].
         unfold wc_ifc. apply tot_bind; [destruct (cont_is_small cont); [apply tot_ret | apply tot_share]|]. intros cont1.
